@@ -21,6 +21,8 @@ use vkit::{hex8, Monitor, Rng};
 const EQ_TOL: f64 = 1e-9;
 /// slack for "never lowers / never raises"
 const MONO_TOL: f64 = 1e-12;
+/// interaction-report pairs: five times the engine's own convergence threshold (L1 step < 1e-4)
+const INTERACTION_TOL: f64 = 5e-4;
 /// a compute slower than this may have hit the engine's own 2 s fallback → undecidable
 const SLOW: Duration = Duration::from_millis(1500);
 
@@ -173,6 +175,48 @@ async fn replay(h: &Hist, extra: Option<(u32, St)>) -> Option<HashMap<NodeId, f6
     }
     let (m, wall) = apply(&eng, &h.ids, &Op::Compute).await?;
     (wall <= SLOW).then_some(m)
+}
+
+/// replay a whole history plus one more interaction report `from -> to` into a fresh engine
+async fn replay_lt(h: &Hist, extra: Option<(u32, u32, bool)>) -> Option<HashMap<NodeId, f64>> {
+    let eng = new_engine(h);
+    for op in &h.ops {
+        if let Some((_, wall)) = apply(&eng, &h.ids, op).await {
+            if wall > SLOW {
+                return None;
+            }
+        }
+    }
+    if let Some((from, to, ok)) = extra {
+        apply(&eng, &h.ids, &Op::Lt { from, to, ok, prov: false }).await;
+    }
+    let (m, wall) = apply(&eng, &h.ids, &Op::Compute).await?;
+    (wall <= SLOW).then_some(m)
+}
+
+/// like `confirmed_lower` for interaction-report pairs
+async fn confirmed_lower_lt(mon: &Monitor, h: &Hist, p: u32, lo_extra: Option<(u32, u32, bool)>, lo_seen: f64, hi_extra: Option<(u32, u32, bool)>, hi_seen: f64) -> bool {
+    let pid = &h.ids[p as usize];
+    let (mut lo_max, mut hi_min) = (lo_seen, hi_seen);
+    let rounds = if (hi_seen - lo_seen).abs() < 1e-2 { 5 } else { 1 };
+    for _ in 0..rounds {
+        match (replay_lt(h, lo_extra).await, replay_lt(h, hi_extra).await) {
+            (Some(a), Some(b)) => {
+                lo_max = lo_max.max(score(&a, pid));
+                hi_min = hi_min.min(score(&b, pid));
+            }
+            _ => {
+                mon.count("skipped.slow-compute", 1);
+                return false;
+            }
+        }
+    }
+    if lo_max < hi_min - MONO_TOL {
+        true
+    } else {
+        mon.count("skipped.pair-not-stable-across-engines", 1);
+        false
+    }
 }
 
 #[derive(Clone, Copy, PartialEq, Eq, Debug)]
@@ -755,6 +799,65 @@ async fn run_history(mon: &Monitor, h: &Hist, rng: &mut Rng, idx: u64) {
                 mon.count("pairs.severe_cost_strictly_more", 1);
             }
         }
+        // ---- interaction reports naming p (update_local_trust rater -> p) ----
+        // the rater is a node the history already knows; raters that have only ever complained
+        // (all their statements are failures) are preferred: their trust mass has no edge to flow along
+        {
+            let mut tally: HashMap<u32, (u32, u32)> = HashMap::new();
+            for op in &h.ops {
+                if let Op::Lt { from, ok, .. } = op {
+                    let e = tally.entry(*from).or_insert((0, 0));
+                    if *ok {
+                        e.0 += 1;
+                    } else {
+                        e.1 += 1;
+                    }
+                }
+            }
+            let known: Vec<u32> = (0..h.ids.len() as u32).filter(|r| *r != p && model.state[*r as usize] == Know::Known && base.contains_key(&h.ids[*r as usize])).collect();
+            let complainers: Vec<u32> = known.iter().copied().filter(|r| tally.get(r).is_some_and(|(ok, bad)| *ok == 0 && *bad > 0)).collect();
+            let rater = if !complainers.is_empty() && rng.chance(0.6) { Some(*rng.pick(&complainers)) } else if !known.is_empty() { Some(*rng.pick(&known)) } else { None };
+            if let Some(r) = rater {
+                let rkind = if complainers.contains(&r) { "rater-only-ever-complained" } else if tally.contains_key(&r) { "rater-with-statements" } else { "rater-without-statements" };
+                let with_ok = replay_lt(h, Some((r, p, true))).await;
+                let with_bad = replay_lt(h, Some((r, p, false))).await;
+                if let (Some(a), Some(b)) = (with_ok, with_bad) {
+                    if a.values().chain(b.values()).all(|v| v.is_finite()) {
+                        let (s_ok, s_bad) = (score(&a, pid), score(&b, pid));
+                        mon.count(&format!("pairs.interaction.{rkind}"), 1);
+                        mon.eval();
+                        if nontrivial {
+                            mon.case((nb, "mono-interaction", rkind, standing));
+                        }
+                        let detail = |what: &str, with: f64| {
+                            json!({"what": what, "peer": short(&h.ids, p), "rater": short(&h.ids, r), "rater_kind": rkind, "peer_standing": standing,
+                                   "score_without_report": s0, "score_with_report": with, "scored_nodes": base.len(),
+                                   "history": cx.hist_detail(nops), "base_scores": cx.scores_json(&base)})
+                        };
+                        // An interaction report can change WHO is in the computation (a node first named by it) and
+                        // with that the start vector and the round at which the power iteration stops (L1 step
+                        // < 1e-4): scores are only defined up to that tolerance. Moves below 5e-4 are counted,
+                        // not judged.
+                        if (s_ok - s0).abs() <= INTERACTION_TOL && (s_bad - s0).abs() <= INTERACTION_TOL && (s_ok < s0 - MONO_TOL || s_bad > s0 + MONO_TOL) {
+                            mon.count("skipped.interaction-pair-move-below-engine-convergence-tolerance", 1);
+                        }
+                        // In arbitrary histories these pairs are only OBSERVED: a report that first names a peer
+                        // changes the population, and when all real mass sits on nodes whose statistics factor
+                        // is 0 the final normalisation amplifies convergence residue to O(1). The judged version
+                        // of this rule runs on statistics-free graphs over a fixed population (interaction_lane).
+                        let _ = &detail;
+                        if s_ok < s0 - INTERACTION_TOL {
+                            mon.count("observed.general-history.interaction-success-lowered", 1);
+                        }
+                        if s_bad > s0 + INTERACTION_TOL {
+                            mon.count("observed.general-history.interaction-failure-raised", 1);
+                        }
+                    }
+                } else {
+                    mon.count("skipped.slow-compute", 1);
+                }
+            }
+        }
         if idx % 53 == 7 && nontrivial && base.len() <= 12 && mon.want_sample() {
             mon.sample(json!({"kind": "metamorphic pair", "peer": short(&h.ids, p), "peer_prior_statistics": prior, "peer_standing": standing,
                 "score_H": s0, "score_H_plus": got.iter().map(|(k, v)| format!("{k}={v:.6}")).collect::<Vec<_>>(),
@@ -763,6 +866,71 @@ async fn run_history(mon: &Monitor, h: &Hist, rng: &mut Rng, idx: u64) {
     }
 }
 
+
+/// Interaction reports (update_local_trust rater -> p) on statistics-free graphs over a fixed
+/// population: rater and peer are already part of the computation, so one more report changes one
+/// matrix row and nothing else. One more success must not lower p, one more failure must not raise
+/// it (beyond the engine's own convergence tolerance).
+async fn interaction_lane(mon: &Monitor, rng: &mut Rng) {
+    let n = rng.urange(3, 9) as u32;
+    let ids: Vec<NodeId> = (0..n).map(|_| NodeId::from_bytes(rng.arr32())).collect();
+    let n_pre = rng.urange(0, 2.min(n as usize - 1));
+    let init_pre: Vec<u32> = (0..n_pre as u32).collect();
+    let mut ops: Vec<Op> = Vec::new();
+    // every node appears in at least one statement so the population is fixed. Three kinds of node:
+    // i%4==2 only ever reports failures, i%4==3 makes no statement at all (it is only rated), the
+    // rest rate normally. The judged report can thus be a rater's very first statement.
+    let silent = |i: u32| i % 4 == 3;
+    let complainer = |i: u32| i % 4 == 2;
+    for i in 0..n {
+        if silent(i) {
+            // make sure somebody names it
+            let from = (i + 1) % n;
+            let from = if silent(from) { (from + 1) % n } else { from };
+            ops.push(Op::Lt { from, to: i, ok: !complainer(from), prov: false });
+            continue;
+        }
+        let to = (i + 1 + rng.below(n as u64 - 1) as u32) % n;
+        ops.push(Op::Lt { from: i, to, ok: !complainer(i), prov: false });
+    }
+    for _ in 0..rng.urange(0, 14) {
+        let from = rng.below(n as u64) as u32;
+        if silent(from) {
+            continue;
+        }
+        let to = rng.below(n as u64) as u32;
+        let ok = if complainer(from) { false } else { rng.chance(0.75) };
+        ops.push(Op::Lt { from, to, ok, prov: false });
+    }
+    let h = Hist { ids, init_pre, ops, twin: None, class: 99, extra_replays: 0 };
+    let Some(base) = replay_lt(&h, None).await else { return };
+    if !base.values().all(|v| v.is_finite()) {
+        return;
+    }
+    for _ in 0..3 {
+        let p = rng.below(n as u64) as u32;
+        let r = (p + 1 + rng.below(n as u64 - 1) as u32) % n;
+        let pid = &h.ids[p as usize];
+        let s0 = score(&base, pid);
+        let rkind = if r % 4 == 2 { "rater-only-ever-complained" } else if r % 4 == 3 { "rater-first-statement" } else { "rater-with-successes" };
+        let (Some(a), Some(b)) = (replay_lt(&h, Some((r, p, true))).await, replay_lt(&h, Some((r, p, false))).await) else { continue };
+        let (s_ok, s_bad) = (score(&a, pid), score(&b, pid));
+        mon.eval();
+        mon.case(("interaction-lane", n, n_pre, rkind, s0 > 1.0 / n as f64));
+        mon.count(&format!("interaction_lane.pairs.{rkind}"), 1);
+        let detail = |what: &str, with: f64| {
+            json!({"what": what, "peer": short(&h.ids, p), "rater": short(&h.ids, r), "rater_kind": rkind, "anchors": n_pre,
+                   "score_without_report": s0, "score_with_report": with, "history": ops_json(&h.ops)})
+        };
+        if s_ok < s0 - INTERACTION_TOL && confirmed_lower_lt(mon, &h, p, Some((r, p, true)), s_ok, None, s0).await {
+            mon.violation(&format!("monotone-success/interaction-report/{rkind}"), detail("H + one more successful interaction with p lowered p's score", s_ok));
+        }
+        mon.eval();
+        if s_bad > s0 + INTERACTION_TOL && confirmed_lower_lt(mon, &h, p, None, s0, Some((r, p, false)), s_bad).await {
+            mon.violation(&format!("monotone-failure/interaction-report/{rkind}"), detail("H + one more failed interaction with p raised p's score", s_bad));
+        }
+    }
+}
 
 fn big(rng: &mut Rng) -> u64 {
     match rng.below(9) {
@@ -961,6 +1129,7 @@ fn directed() -> Vec<Hist> {
 fn main() {
     let mon = Monitor::new("C10", "exploration");
     mon.set_rule("case = one judgement on one seeded history (computed map, per-peer queries, second-engine replay, twin pair) or one metamorphic pair (H vs H + one report about peer p); non-trivial when the history still mentions >=3 nodes, >=1 pairwise statement and >=1 statistics report (twin cases additionally need a positive score); distinct by (scored-node bucket, set of op kinds used, judgement kind [+ report kind, p's prior statistics, p's standing])");
+    mon.assume("interaction-report pairs (update_local_trust rater->p) are judged on statistics-free graphs over a fixed population with a tolerance of 5e-4 (five times the engine's convergence threshold); in arbitrary histories they are only observed and counted");
     mon.assume("time decay is inactive: the engine measures std::time::Instant hours since its last compute, which is 0 within a run");
     mon.assume("a pre-trusted id that lost its anchor status and has no reports, and ids whose only statements involved a removed node, are not judged by get_trust (the property does not say whether they are still known)");
     mon.assume("a peer removed with TrustProvider::remove_node and not mentioned afterwards counts as unknown (trait doc: 'Remove a node from the trust system'; get_trust comment: '0.0 for unknown/removed nodes')");
@@ -985,6 +1154,11 @@ fn main() {
                 if mon.time_up() {
                     mon.count("stopped.time_up", 1);
                     break;
+                }
+                if k % 4 == 0 {
+                    for _ in 0..6 {
+                        interaction_lane(&mon, &mut rng).await;
+                    }
                 }
                 let h = gen_history(&mut rng);
                 run_history(&mon, &h, &mut rng, k).await;
